@@ -114,6 +114,10 @@ func init() {
 		if el == nil {
 			in.goPanic("dsig.Validate(nil element)")
 		}
+		if rel, _ := in.Ghost["poolreleased:"+ptrKey(ctxp)].(bool); rel {
+			in.Ghost["pool.use-after-put"] = intGhost(in, "pool.use-after-put") + 1
+			in.event("a validation context is used after it was handed back to a shared free list")
+		}
 		ct := derefType(fn.Signature.Recv().Type())
 		cv := in.load(ctxp).(*StructV)
 		call := &validateCall{Store: cv.F[fieldIndex(ct, "CertificateStore")], Clock: cv.F[fieldIndex(ct, "Clock")]}
